@@ -10,6 +10,7 @@ stages=[
     dict(name="small", harness="c16", oracle="C16", args=["-stage", "small"]),
     dict(name="date", harness="c16", oracle="C16", args=["-stage", "date"]),
     dict(name="etag", harness="c16", oracle="C16", args=["-stage", "etag"]),
+    dict(name="href", harness="c16", oracle="C16", args=["-stage", "href"]),
 ],
 rule="TBD",
 exhaustive=True,
